@@ -212,7 +212,8 @@ pub fn judge<G: GraphLike + PartialEq>(
 /// all rules x all argument tuples on one diagram; returns the matcher verdict vector
 pub fn all_rules_on<G: GraphLike + PartialEq>(st: &mut Stats, spec: &DiagSpec, backend: &'static str, nvars: Option<u32>, only: Option<(&str, &[V])>) -> Vec<u8> {
     let g: G = spec.build();
-    let n = spec.verts.len();
+    // ids from 0: with an id gap the freed ids of the removed dummies are swept as (stale) arguments too
+    let n = spec.verts.len() + spec.gap as usize;
     let mut ids: Vec<V> = (0..n).collect();
     ids.push(n);
     ids.push(n + 5);
@@ -320,9 +321,14 @@ pub fn run(rep: &mut Report) {
         let mut rev = spec.clone();
         rev.edges.reverse();
         on_both_backends(st, &rev, None);
+        // and built after two vertices were created and removed again: ids start at 2, the vector back end holds two
+        // freed slots (vertices added by a rule re-use them), stale ids 0 and 1 are among the swept arguments
+        let mut gapped = spec.clone();
+        gapped.gap = 2;
+        on_both_backends(st, &gapped, None);
         watch_end();
     });
-    rep.absorb("targeted", "local-complementation stars, pivot double stars, gadget pairs with shared neighbourhoods (supports with and without outputs, leaf wired first or last), gadget groups and interacting gadget groups, each also with all edges inserted in the opposite order", true, None, t0, stats);
+    rep.absorb("targeted", "local-complementation stars, pivot double stars, gadget pairs with shared neighbourhoods (supports with and without outputs, leaf wired first or last), gadget groups and interacting gadget groups, each also with all edges inserted in the opposite order and with an id gap (two vertices created and removed first)", true, None, t0, stats);
 }
 
 /// Rule-targeted neighbourhood families: stars, double stars, gadget pairs.
